@@ -269,10 +269,19 @@ def oracle(t, h1, h2, res):
     exp = EXPECTED_STALE.get(fam, [])
     base = {"entry_point": st.key, "switch": list(sw), "before": h1, "after": h2}
 
+    def tainted(name, seen=()):
+        """does the result read, directly or through its dependencies, a stale cell"""
+        if name not in g.nodes or name in seen:
+            return False
+        nd = g.nodes[name]
+        return any(c in stale for c in nd["creads"]) or any(tainted(d, seen + (name,)) for d in nd["deps"])
+
     def key(name):
-        if stale and all(c in exp for c in stale):
+        # a failure belongs to the recorded init-derived-state finding only when the failing result really reads a
+        # recorded stale cell; anything else inside the same class is a new way of not being equal to a fresh analyzer
+        if stale and all(c in exp for c in stale) and (name == "switch" or tainted(name)):
             return "C14/%s/%s/init-derived-state" % (sw[0], fam)
-        if stale:
+        if stale and tainted(name):
             return "C14/%s/%s/stale:%s" % (sw[0], fam, ",".join(c for c in stale if c not in exp))
         return "C14/%s/%s/%s" % (sw[0], fam, name)
     for n in res.get("stale_survivors", []):
